@@ -1092,14 +1092,21 @@ mod n {
     // C12: the window's sample points: a regular grid of cell centres covering the window, on the window plane
     #[test]
     fn n_c12_ray_origins() {
-        drive("C12.ray_origins", "Model::ray_origins_for_window: wall 6x3 in 7 poses x 2 positions; window (x,y,w,h) in {(1,0.8,1.5,1.2),(0,0,3,0.6),(2.5,1,0.4,1.6)} x setback {0,0.25}", |c| {
+        drive("C12.ray_origins", "Model::ray_origins_for_window: wall in 7 poses x 2 positions x 3 polygon descriptions (origin / translated / starting on another corner); window (x,y,w,h) in {(1,0.8,1.5,1.2),(0,0,3,0.6),(2.5,1,0.4,1.6)} x setback {0,0.25}", |c| {
             let (tilt, az) = c.of(&POSES);
             let pos = c.of(&[point![0.0f32, 0.0, 0.0], point![3.0f32, -2.0, 5.0]]);
             let (wx, wy, ww, wh) = c.of(&[(1.0f32, 0.8f32, 1.5f32, 1.2f32), (0.0, 0.0, 3.0, 0.6), (2.5, 1.0, 0.4, 1.6)]);
             let sb = c.of(&[0.0f32, 0.25]);
-            c.note(format!("tilt {} az {} pos {:?} window ({}, {}) {}x{} setback {}", tilt, az, pos, wx, wy, ww, wh, sb));
+            // the window position is measured from the wall polygon's first vertex along its first edge:
+            // polygons that start at the origin along +x, that are translated, and that start on another corner
+            let wall_poly: crate::Polygon = c.of(&[
+                mk::rect(6.0, 3.0),
+                vec![point![1.0, 0.5], point![7.0, 0.5], point![7.0, 3.5], point![1.0, 3.5]],
+                vec![point![6.0, 0.0], point![6.0, 6.0], point![0.0, 6.0], point![0.0, 0.0]],
+            ]);
+            c.note(format!("tilt {} az {} pos {:?} window ({}, {}) {}x{} setback {} wall polygon starts at {:?} towards {:?}", tilt, az, pos, wx, wy, ww, wh, sb, wall_poly[0], wall_poly[1]));
             let mut m = mk::empty_model();
-            m.walls.push(mk::wall(1, BT::EXTERIOR, mk::uid(0xA0), None, mk::uid(0xC0), tilt, az, mk::rect(6.0, 3.0), Some(pos)));
+            m.walls.push(mk::wall(1, BT::EXTERIOR, mk::uid(0xA0), None, mk::uid(0xC0), tilt, az, wall_poly.clone(), Some(pos)));
             m.windows.push(mk::window(0x11, mk::uid(1), mk::uid(0xD0), ww, wh, Some(point![wx, wy]), sb));
             let pts = m.ray_origins_for_window(&m.windows[0]);
             c.check("C12.ray_origins.count", pts.len() >= 25 && pts.len() <= 100, || format!("{} sample points", pts.len()));
@@ -1107,7 +1114,17 @@ mod n {
                 return;
             }
             let inv = m.walls[0].geometry.to_global_coords_matrix().unwrap().inverse();
-            let loc: Vec<Point3> = pts.iter().map(|p| inv * p).collect();
+            // polygon coordinates -> coordinates relative to the first vertex / first edge of the wall polygon
+            let (v0, e) = (wall_poly[0], wall_poly[1] - wall_poly[0]);
+            let th = e.y.atan2(e.x);
+            let loc: Vec<Point3> = pts
+                .iter()
+                .map(|p| inv * p)
+                .map(|p| {
+                    let (dx, dy) = (p.x - v0.x, p.y - v0.y);
+                    point![dx * th.cos() + dy * th.sin(), -dx * th.sin() + dy * th.cos(), p.z]
+                })
+                .collect();
             let eps = 2e-3;
             c.check("C12.ray_origins.on_window_plane", loc.iter().all(|p| (p.z + sb).abs() <= eps), || format!("local z of the sample points {:?}, window plane at {}", loc.iter().map(|p| p.z).fold(f32::NAN, f32::max), -sb));
             c.check("C12.ray_origins.inside_window", loc.iter().all(|p| p.x >= wx - eps && p.x <= wx + ww + eps && p.y >= wy - eps && p.y <= wy + wh + eps), || format!("sample points outside the window rectangle: x in [{}, {}], y in [{}, {}]", loc.iter().map(|p| p.x).fold(f32::INFINITY, f32::min), loc.iter().map(|p| p.x).fold(f32::NEG_INFINITY, f32::max), loc.iter().map(|p| p.y).fold(f32::INFINITY, f32::min), loc.iter().map(|p| p.y).fold(f32::NEG_INFINITY, f32::max)));
